@@ -240,13 +240,14 @@ func matrix(p godi.Provider) (res []string, groups M, fail string) {
 	for _, t := range qTypes {
 		for _, k := range []string{"-", "k"} {
 			var e error
+			var v any
 			if k == "-" {
-				_, e = sc.Get(typeByName(t))
+				v, e = sc.Get(typeByName(t))
 			} else {
-				_, e = sc.GetKeyed(typeByName(t), k)
+				v, e = sc.GetKeyed(typeByName(t), k)
 			}
 			if e == nil {
-				res = append(res, t+"/"+k)
+				res = append(res, t+"/"+k+"="+regOf(v)) // which registration produced what was resolved
 			} else if !errors.Is(e, godi.ErrServiceNotFound) {
 				res = append(res, t+"/"+k+"!"+classify(e)[0])
 			}
@@ -257,6 +258,20 @@ func matrix(p godi.Provider) (res []string, groups M, fail string) {
 		}
 	}
 	return res, groups, ""
+}
+
+func regOf(v any) string {
+	switch x := v.(type) {
+	case *S0:
+		return x.Reg
+	case *S1:
+		return x.Reg
+	case *S2:
+		return x.Reg
+	case *S3:
+		return x.Reg
+	}
+	return "?"
 }
 
 type ranRec struct {
